@@ -210,21 +210,41 @@ def painted(draw):
     return out
 
 
+NCOMP = {"g": 1, "G": 1, "rg": 3, "RG": 3, "k": 4, "K": 4}
+
+
 @st.composite
-def block(draw, depth, form_names):
+def block(draw, depth, form_names, cs=None):
+    """cs = [non-stroking, stroking] component counts of the current colour spaces as ISO 32000-1 defines them
+    (part of the graphics state: saved by q, restored by Q); None = not known here (start of a form)."""
     out = []
+    cs = list(cs) if cs is not None else [None, None]
     for _ in range(draw(st.integers(1, 6))):
-        k = draw(st.integers(0, 9))
+        k = draw(st.integers(0, 10))
         if k <= 3:
             out.extend(draw(painted()))
         elif k <= 6:
-            out.append(draw(GSOP))
+            op = draw(GSOP)
+            out.append(op)
+            if op[0] in NCOMP:
+                cs[0 if op[0].islower() else 1] = NCOMP[op[0]]
+            elif op[0] in ("cs", "CS"):
+                cs[0 if op[0] == "cs" else 1] = CSPACES[op[1]]
         elif k <= 8 and depth < 2:
             out.append(("q",))
-            out.extend(draw(block(depth + 1, form_names)))
+            out.extend(draw(block(depth + 1, form_names, cs)))
             out.append(("Q",))
-        elif form_names:
+        elif k == 9 and form_names:
             out.append(("Do", draw(st.sampled_from(form_names))))
+        elif k == 10:
+            # colour set in the *current* colour space, whichever operator established it (g/rg/k/cs, before or
+            # after an enclosing q .. Q)
+            stroking = draw(st.booleans())
+            n = cs[1 if stroking else 0]
+            if n is not None:
+                vals = tuple(draw(COL) for _ in range(n))
+                name = draw(st.sampled_from(["sc", "scn"]))
+                out.append(("SC" if stroking else "sc", vals, name.upper() if stroking else name))
         else:
             out.extend(draw(painted()))
     return out
@@ -239,7 +259,7 @@ def cases(draw):
         ops = draw(block(1, list(names)))
         forms[name] = {"matrix": draw(st.one_of(st.just(TM.I6), MAT)), "ops": ops, "own": draw(st.booleans())}
         names.append(name)
-    return {"prog": draw(block(0, names)), "forms": forms}
+    return {"prog": draw(block(0, names, [1, 1])), "forms": forms}
 
 
 def plan(tier):
